@@ -43,7 +43,7 @@ VOCAB = ("the of and a in to is was for cloning vector plasmid Escherichia coli 
          "DNA RNA protein gene encoding beta-lactamase origin replication promoter terminator region (bases 1 to 2686) J. Biol. Chem. "
          "268:1234-1240 (1993) Smith,J. and Jones,A.B. http://www.example.org/path?x=1&y=2 ; , . 3' 5' [direct] {submission} 100% "
          "pUC19 lacZ-alpha M13mp18 ~ | ^ * + = / \\ # $ < > ' ` e.g. i.e. et al. Saccharomyces cerevisiae S288C").split()
-SUBKW = ["ORGANISM", "AUTHORS", "TITLE", "JOURNAL", "PUBMED", "REMARK"]
+SUBKW = ["ORGANISM", "AUTHORS", "TITLE", "JOURNAL", "PUBMED", "REMARK"] * 4 + ["REFERENCE", "FEATURES", "ORIGIN", "SOURCE", "LOCUS"]
 AA = "ACDEFGHIKLMNPQRSTVWY"
 
 
@@ -59,7 +59,7 @@ def text(r, maxlen, p_empty=0.1, kw=False):
             w = randword(r, "abcdefghijklmnopqrstuvwxyzABCXYZ0123456789_-", r.choice([60, 66, 67, 68, 69, 70, 90, 140]))
         elif u < 0.05:
             w = randword(r, "abcdefghijklmnopqrstuvwxyz", r.randint(1, 30))
-        elif kw and u < 0.07:
+        elif kw and u < 0.12:
             w = r.choice(SUBKW)
         else:
             w = r.choice(VOCAB)
@@ -85,6 +85,8 @@ def qual_value(r, key):
     if u < 0.3:
         # arbitrary printable ASCII, quotation marks only inside
         s = randword(r, "".join(chr(c) for c in range(32, 127)), loglen(r, 1, 120))
+        if r.random() < 0.8:
+            s = s.replace('"', "'")
         s = s.strip('"')
         return s
     return text(r, 400, p_empty=0)
@@ -153,12 +155,10 @@ def gen_record(r, maxseq, maxfeat, maxmeta, cached_mode, shadow=False):
     name = r.choice(["pUC19", "puc19", "NC_001416", "AB123456.1", "test", "x", "my-plasmid_v2", "pBR322",
                      randword(r, "abcdefghijklmnopqrstuvwxyz0123456789_", r.randint(1, 16)),
                      randword(r, "ABCEFGHJKLMOQUWXZ0123456789", r.randint(1, 10))])
-    mol = r.choice(MOL_OK + ["", "DNA", "DNA"])
+    mol = r.choice(MOLTYPES + ["", "DNA", "DNA"])
     if shadow:
-        if r.random() < 0.5:
-            mol = r.choice(["genomic DNA", "other DNA", "unassigned DNA"])
-        else:
-            name = r.choice(["pDNA3", "SYNB1", "mRNAx", "PRIMER7", "x01-JAN-2001y"])
+        # names holding a molecule type / division / date / topology token (repaired defect C03-locus-search)
+        name = r.choice(["pDNA3", "SYNB1", "mRNAx", "PRIMER7", "x01-JAN-2001y", "linear", "circular", "genomicDNA", "tRNA"])
     u = r.random()
     rec = {
         "name": name,
@@ -167,18 +167,20 @@ def gen_record(r, maxseq, maxfeat, maxmeta, cached_mode, shadow=False):
         "date": "%02d-%s-%04d" % (r.randint(1, 31), r.choice(MONTHS), r.randint(1980, 2030)) if r.random() < 0.9 else "",
         "coding": "bp", "circ": u < 0.4, "lin": 0.4 <= u < 0.9,
         "defi": text(r, maxmeta), "acc": text(r, 40), "ver": text(r, 40), "kw": text(r, maxmeta // 4),
-        "src": text(r, maxmeta // 2), "org": text(r, maxmeta),
+        "src": text(r, maxmeta // 2, kw=r.random() < 0.15), "org": text(r, maxmeta),
     }
     refs = []
     for i in range(r.choice([0, 0, 1, 1, 2, 3, 5])):
-        refs.append((str(i + 1), text(r, maxmeta // 2, 0.2, kw=r.random() < 0.03), text(r, maxmeta // 2, 0.2, kw=r.random() < 0.03),
+        refs.append((str(i + 1), text(r, maxmeta // 2, 0.2, kw=r.random() < 0.15), text(r, maxmeta // 2, 0.2, kw=r.random() < 0.15),
                      text(r, 200, 0.2), text(r, 12, 0.4), text(r, maxmeta // 2, 0.5),
-                     "" if r.random() < 0.15 else "(bases %d to %d)" % (r.randint(1, n), n)))
+                     "" if r.random() < 0.15 else
+                     ("(bases %d to %d)" % (r.randint(1, n), n) if r.random() < 0.85 else
+                      "(bases " + "; ".join("%d to %d" % (a, a + 9) for a in range(1, r.choice([60, 100, 400]), 20)) + ")")))
     rec["refs"] = refs
     keys = r.sample(OTHER_KEYS + [randword(r, "ABCDEFGHIJKLMNOPQRSTUVWXYZ", r.randint(1, 11)) for _ in range(2)], r.choice([0, 0, 1, 1, 2, 4]))
     keys = [k for k in dict.fromkeys(keys) if k not in ("LOCUS DEFINITION ACCESSION VERSION KEYWORDS SOURCE ORGANISM REFERENCE AUTHORS "
                                                           "TITLE JOURNAL PUBMED REMARK FEATURES ORIGIN").split()]
-    rec["other"] = [(k, text(r, maxmeta, 0.1, kw=r.random() < 0.03)) for k in keys]
+    rec["other"] = [(k, text(r, maxmeta, 0.1, kw=r.random() < 0.15)) for k in keys]
     feats = []
     nf = r.choice([0, 1, 2, 3, 5, 8]) if r.random() < 0.8 else r.randint(0, maxfeat)
     for _ in range(nf):
@@ -342,7 +344,7 @@ def cases(seed, tier):
     for i in range(nrec):
         mode = ["none", "all", "mixed"][i % 3]
         big = (i % 40 == 7)
-        R = gen_record(r, maxseq, 40 if (big or not quick) else 12, maxmeta if i % 3 else 300, mode, shadow=(i % 50 == 49))
+        R = gen_record(r, maxseq, 40 if (big or not quick) else 12, maxmeta if i % 3 else 300, mode, shadow=(i % 12 == 11))
         yield ["rec"] + rec_fields(R)
     for i in range(nimg):
         R = gen_record(r, maxseq // 2, 40 if not quick else 10, maxmeta if i % 4 == 0 else 300, "all")
